@@ -652,7 +652,7 @@ func run(r *mon.Run) {
 				x, _ := s.Build(nil)
 				return x
 			}
-			for _, st := range []string{"200", "100", "999", "000", "+20", "-07", "+00", "-00", "2 0", " 20", "20 ", "20", "2", "", "2000", "20x", "x20", "0x1", "1e2", "2.0", "\uff12\uff10\uff10", "20\n", "\t20", "2\x000"} {
+			for _, st := range []string{"200", "100", "999", "000", "010", "077", "089", "099", "008", "007", "090", "0b1", "0o7", "0_1", "+20", "-07", "+00", "-00", "2 0", " 20", "20 ", "20", "2", "", "2000", "20x", "x20", "0x1", "1e2", "2.0", "\uff12\uff10\uff10", "20\n", "\t20", "2\x000"} {
 				judge(r, mk(st, hdrs("content-type", "text/plain")), "status-spelling", fmt.Sprintf("%s/%q", ver, st), st == "200" || st == "100" || st == "999" || st == "000", 7)
 			}
 			variants := map[string][]rbundle.BHeader{
